@@ -370,7 +370,9 @@ class UnitCtx:
                 raise Unsupported("initialiser of `%s` has type %s, declared %s" % (name, t2, ty), node.pos)
             self.consts[name] = (txt, ty, " ".join(m.group(0).split()), self.src.line_of(m.start()))
             self.const_order.append(name)
-        return "(%s o)" % name, self.consts[name][1]
+        # use sites get the translated initialiser itself (proofs cannot name constants a rewrite introduces); the `def` is
+        # emitted for reference
+        return self.consts[name][0], self.consts[name][1]
 
 
 class FnP:
